@@ -5,6 +5,7 @@ import (
 	"runtime"
 	"strings"
 	"sync"
+	"time"
 
 	"github.com/fluffle/goirc/client"
 
@@ -307,7 +308,8 @@ func c02MakeProbe(r interface{ Intn(int) int }, idx int) c02Probe {
 	for i := 0; i < n; i++ {
 		p := c02Params[r.Intn(len(c02Params))]
 		if r.Intn(40) == 0 {
-			p = strings.Repeat("x", 1024)
+			// long parameters: around the reader's 4096-byte buffer, around 8 KiB, and far beyond any buffer
+			p = strings.Repeat("x", []int{1024, 1024, 4060 + r.Intn(50), 4096, 8170 + r.Intn(40), 20000}[r.Intn(6)])
 		}
 		if i == trailingAt {
 			parts = append(parts, ":"+p)
@@ -354,6 +356,7 @@ func runC02Live(c *Ctx) {
 		}
 		var mu sync.Mutex
 		probeHits := 0
+		var gate chan struct{}
 		var nums []string
 		registered := map[string]bool{}
 		probeHandler := func(_ *client.Conn, l *client.Line) {
@@ -362,7 +365,11 @@ func runC02Live(c *Ctx) {
 			}
 			mu.Lock()
 			probeHits++
+			g := gate
 			mu.Unlock()
+			if g != nil {
+				<-g // a slow handler: the lines that follow pile up behind it
+			}
 		}
 		s.Conn.HandleFunc("VNUM", func(_ *client.Conn, l *client.Line) {
 			mu.Lock()
@@ -429,6 +436,16 @@ func runC02Live(c *Ctx) {
 			mu.Unlock()
 			rejBefore := logger.Count(func(r *rig.LogRecord) bool { return strings.HasPrefix(r.Format, "irc.recv(): problems parsing") })
 			k := 1 + r.Intn(3)
+			var g chan struct{}
+			if r.Intn(25) == 0 {
+				// a burst behind a slow handler: more lines than any of the client's queues hold
+				k = 30 + r.Intn(90)
+				g = make(chan struct{})
+				mu.Lock()
+				gate = g
+				mu.Unlock()
+				c.R.Count("live_bursts_behind_slow_handler", 1)
+			}
 			var want []string
 			var buf []byte
 			buf = append(buf, p.raw+"\r\n"...)
@@ -445,6 +462,13 @@ func runC02Live(c *Ctx) {
 					cuts = append(cuts, q)
 				}
 				mc.SendSegmented(buf, cuts)
+			}
+			if g != nil {
+				time.Sleep(time.Duration(1+r.Intn(4)) * time.Millisecond)
+				mu.Lock()
+				gate = nil
+				mu.Unlock()
+				close(g)
 			}
 			okW := s.WireMarker(mc)
 			okF := okW && s.FgMarker(mc)
